@@ -65,6 +65,7 @@ THEOREMS = [
     "Nix.C01.C01_seq_cast_vs_conversion",
     "Nix.C01.C01_seq_raised_unchanged",
     "Nix.C01.C01_seq_performed",
+    "Nix.C01.C01_seq_history",
 ]
 ASSUMPTIONS = [
     "libhdf5/h5py storage is replaced by an executable stand-in (NdArray: extent change keeps surviving multi-indices "
@@ -1786,7 +1787,7 @@ def replay_failure(ctx, fj):
 
 READY = True
 MANIFEST = {
-    "level_text": "Kernel-checked theorems (43, no Mathlib, axioms within propext/Classical.choice/Quot.sound) over a "
+    "level_text": "Kernel-checked theorems (44, no Mathlib, axioms within propext/Classical.choice/Quot.sound) over a "
                   "Lean model of nixio's array I/O logic, tied to the source by a compiler: on every run "
                   "harness/extract/datasetshape.py compiles DataSet.append (every check, comprehension, the resize, "
                   "the hyperslab write, the restore-on-failure), __getitem__/__setitem__/write_direct/len/shape/size/"
@@ -1814,7 +1815,9 @@ MANIFEST = {
                   "names that type, and an array created with it has the same element type. Sources that are Python sequences in a write / assignment (h5py casts them "
                   "with NumPy): the cast yields values of the element type, is the identity on them, refuses integers "
                   "out of range (OverflowError), NaN (ValueError), inf; a refused step leaves the array unchanged, a "
-                  "performed one is the array step with the cast values.",
+                  "performed one is the array step with the cast values; every history that mixes array and sequence "
+                  "sources is the array-source history a defined translation computes (same length), so the fold "
+                  "theorem, type stability and typedness carry over.",
     "level_note": "Partial by nature: libhdf5/h5py storage (extent change, hyperslab write, selection normalisation, "
                   "source broadcasting, element conversion, gzip, close/reopen, variable-length strings) is an "
                   "executable stand-in inside the model; it is exercised, not proved, by the differential runs "
